@@ -587,10 +587,10 @@ class Gen:
                     args.append(("kw", "plural", self.plural()))
             elif r.random() < 0.15:
                 args.append(("kw", "count", self.count()))
-            if r.random() < 0.05:
+            if r.random() < 0.03:
                 args.append(("pos", self.ctx()))       # too many positionals
         elif name == "gettext":
-            if r.random() < 0.06:
+            if r.random() < 0.04:
                 args.append(("pos", self.ctx()))       # TypeError at run time
         elif name == "ngettext":
             args += [("pos", self.plural()), ("pos", self.count())]
@@ -600,9 +600,9 @@ class Gen:
             args += [("pos", self.ctx()), ("pos", self.plural()), ("pos", self.count())]
         if name in ("ngettext", "pgettext", "npgettext"):
             x = r.random()
-            if x < 0.07 and args:
+            if x < 0.04 and args:
                 args.pop()                                # too few
-            elif x < 0.12:
+            elif x < 0.07:
                 args.append(("pos", self.prim_any()))   # too many
         if r.random() < 0.3:
             args.append(self.kwother())
